@@ -112,6 +112,7 @@ func runC08(c *an.Ctx, p *an.Prog, thorough bool) {
 	x := newFsx(p)
 	c081(c, p, x)
 	c082(c, p, x, "C08")
+	c155b(c, p, x, "C08.2")
 	c084(c, p, x, "C08.4")
 }
 
